@@ -326,10 +326,11 @@ Definition in_u16 (z : Z) : Prop := 0 <= z <= 65535.
 Definition wfp (p : psub) : Prop :=
   match p with
   | AckNack _ rid wid st c => length rid = 4%nat /\ length wid = 4%nat /\ wf_snset st /\ in_i32 c
-  | Data _ _ _ _ rid wid sn qos _ => length rid = 4%nat /\ length wid = 4%nat /\ in_i64 sn /\ Forall wf_param qos
-  | DataFrag _ _ _ rid wid sn fs fc fz ds qos _ =>
+  | Data q _ _ _ rid wid sn qos _ =>
+      length rid = 4%nat /\ length wid = 4%nat /\ in_i64 sn /\ (q = true -> Forall wf_param qos)
+  | DataFrag q _ _ rid wid sn fs fc fz ds qos _ =>
       length rid = 4%nat /\ length wid = 4%nat /\ in_i64 sn /\ in_u32 fs /\ in_u16 fc /\ in_u16 fz /\ in_u32 ds /\
-      Forall wf_param qos
+      (q = true -> Forall wf_param qos)
   | Gap rid wid start gl => length rid = 4%nat /\ length wid = 4%nat /\ in_i64 start /\ wf_snset gl
   | Heartbeat _ _ rid wid a b c => length rid = 4%nat /\ length wid = 4%nat /\ in_i64 a /\ in_i64 b /\ in_i32 c
   | HeartbeatFrag rid wid sn lf c => length rid = 4%nat /\ length wid = 4%nat /\ in_i64 sn /\ in_u32 lf /\ in_i32 c
@@ -557,10 +558,12 @@ Proof.
     apply Z.ltb_ge. lia.
   - pose proof (len_nonneg _ (qp ++ pp)). destruct (Z.eqb_spec (len (hd ++ qp ++ pp)) 0); [lia|].
     rewrite Ff1, Fle.
-    replace (len (hd ++ qp ++ pp)) with (len hd + len (qp ++ pp)) by (rewrite len_app; reflexivity).
+    replace (len (hd ++ qp ++ pp)) with (len hd + len (qp ++ pp)) by (rewrite (len_app _ hd); reflexivity).
     rewrite region_exact by (rewrite ?Ehd; lia || reflexivity).
     unfold qp. destruct q.
-    + apply rd_param_list; [exact H4|]. fold qp. rewrite len_app in EL, HL. pose proof (len_nonneg _ pp). lia.
+    + apply rd_param_list; [apply H4; reflexivity|].
+      assert (E3 : len (hd ++ qp ++ pp) = len hd + (len qp + len pp)) by (rewrite !len_app; reflexivity).
+      subst qp. cbv iota in E3. pose proof (len_nonneg _ pp). pose proof (len_nonneg _ hd). lia.
     + reflexivity.
 Qed.
 
@@ -600,9 +603,112 @@ Proof.
     apply Z.ltb_ge. lia.
   - pose proof (len_nonneg _ (qp ++ pl)). destruct (Z.eqb_spec (len (hd ++ qp ++ pl)) 0); [lia|].
     rewrite Ff1, Fle.
-    replace (len (hd ++ qp ++ pl)) with (len hd + len (qp ++ pl)) by (rewrite len_app; reflexivity).
+    replace (len (hd ++ qp ++ pl)) with (len hd + len (qp ++ pl)) by (rewrite (len_app _ hd); reflexivity).
     rewrite region_exact by (rewrite ?Ehd; lia || reflexivity).
     unfold qp. destruct q.
-    + apply rd_param_list; [exact H8|]. fold qp. rewrite len_app in EL, HL. pose proof (len_nonneg _ pl). lia.
+    + apply rd_param_list; [apply H8; reflexivity|].
+      assert (E3 : len (hd ++ qp ++ pl) = len hd + (len qp + len pl)) by (rewrite !len_app; reflexivity).
+      subst qp. cbv iota in E3. pose proof (len_nonneg _ pl). pose proof (len_nonneg _ hd). lia.
     + reflexivity.
+Qed.
+
+(* ------------------------------------------------------------- dispatch and loop *)
+Lemma parse_sub_enc : forall e p rest, wfp p -> len (enc_body e p) <= 65535 ->
+  fst (parse_sub (sub_id p) (flags_octet e (sub_flags p)) (len (enc_body e p)) (enc_body e p ++ rest)) = Ok (pcanon p).
+Proof.
+  intros e p rest H HL.
+  destruct p; cbn [sub_id sub_flags]; unfold parse_sub, ID_ACKNACK, ID_DATA, ID_DATA_FRAG, ID_GAP, ID_HEARTBEAT,
+    ID_HEARTBEAT_FRAG, ID_INFO_DST, ID_INFO_REPLY, ID_INFO_SRC, ID_INFO_TS, ID_NACK_FRAG, ID_PAD;
+    cbn [Z.eqb Pos.eqb].
+  - apply rt_acknack; exact H.
+  - apply rt_data; assumption.
+  - apply rt_data_frag; assumption.
+  - apply rt_gap; exact H.
+  - apply rt_heartbeat; exact H.
+  - apply rt_heartbeat_frag; exact H.
+  - apply rt_info_dst; exact H.
+  - apply rt_info_reply; exact H.
+  - apply rt_info_src; exact H.
+  - apply rt_info_ts; exact H.
+  - apply rt_nack_frag; exact H.
+  - reflexivity.
+Qed.
+
+Lemma sub_flags_length : forall (p : psub), (length (sub_flags p) <= 4)%nat.
+Proof. intros p; destruct p; cbn; lia. Qed.
+
+Lemma is_le_flags : forall e fs, (length fs <= 4)%nat -> is_le (flags_octet e fs) = e.
+Proof.
+  intros e fs H. destruct fs as [|a [|b [|c [|d [|? ?]]]]]; cbn [length] in H; try lia;
+    destruct e; repeat match goal with x : bool |- _ => destruct x end; reflexivity.
+Qed.
+
+Lemma enc_len_field : forall e fl L, is_le fl = e -> 0 <= L <= 65535 ->
+  exists b2 b3, enc_int e 2 L = [b2; b3] /\ sublen_of fl b2 b3 = L.
+Proof.
+  intros e fl L He HL. unfold sublen_of. rewrite He. destruct e; unfold enc_int, enc_be; cbn [enc_le rev app].
+  - exists (L mod 256), (L / 256 mod 256). split; [reflexivity|lia].
+  - exists (L / 256 mod 256), (L mod 256). split; [reflexivity|lia].
+Qed.
+
+Lemma is_data_len : forall e p, wfp p -> is_data (pcanon p) = true -> 20 <= len (enc_body e p).
+Proof.
+  intros e p H Hd. destruct p; cbn in Hd; try discriminate Hd.
+  - destruct H as (H1 & H2 & _). cbn [enc_body]. rewrite !len_app, !len_enc_int, len_enc_sn.
+    unfold len at 1 2. rewrite H1, H2.
+    pose proof (len_nonneg _ (if q then enc_param_list e qos else [])). pose proof (len_nonneg _ (if d || k then payload else [])). lia.
+  - destruct H as (H1 & H2 & _). cbn [enc_body]. rewrite !len_app, !len_enc_int, len_enc_sn.
+    unfold len at 1 2. rewrite H1, H2.
+    pose proof (len_nonneg _ (if q then enc_param_list e qos else [])). pose proof (len_nonneg _ payload). lia.
+  - destruct inval; discriminate Hd.
+Qed.
+
+Definition fits (e : bool) (p : psub) : Prop := len (enc_body e p) <= 65535.
+
+Lemma sub_loop_enc : forall e ps fuel, Forall wfp ps -> Forall (fits e) ps -> (length ps <= fuel)%nat ->
+  fst (sub_loop fuel (flat_map (enc_sub e) ps)) = Ok (map pcanon ps).
+Proof.
+  intros e ps; induction ps as [|p t IH]; intros fuel Hw Hf Hn.
+  - destruct fuel; reflexivity.
+  - destruct fuel; [cbn [length] in Hn; lia|]. cbn [length] in Hn.
+    pose proof (Forall_inv Hw) as Hp. pose proof (Forall_inv_tail Hw) as Hwt.
+    pose proof (Forall_inv Hf) as Hl. pose proof (Forall_inv_tail Hf) as Hft. unfold fits in Hl.
+    cbn [flat_map map]. unfold enc_sub at 1.
+    pose proof (is_le_flags e (sub_flags p) (sub_flags_length p)) as Hle.
+    destruct (enc_len_field e _ (len (enc_body e p)) Hle ltac:(pose proof (len_nonneg _ (enc_body e p)); lia)) as (b2 & b3 & E23 & Esl).
+    rewrite E23. cbn [app sub_loop]. cbv zeta. rewrite Esl.
+    rewrite <- app_assoc.
+    rewrite shorter_app_false by lia.
+    pose proof (parse_sub_enc e p (flat_map (enc_sub e) t) Hp Hl) as Hps.
+    destruct (parse_sub (sub_id p) (flags_octet e (sub_flags p)) (len (enc_body e p)) (enc_body e p ++ flat_map (enc_sub e) t)) as [r0 c0].
+    cbn [fst] in Hps. subst r0.
+    assert (Ec : (len (enc_body e p) =? 0) && is_data (pcanon p) = false).
+    { destruct (is_data (pcanon p)) eqn:Ed; [|apply andb_false_r].
+      pose proof (is_data_len e p Hp Ed). destruct (Z.eqb_spec (len (enc_body e p)) 0); [lia|reflexivity]. }
+    rewrite Ec. unfold len at 2. rewrite Nat2Z.id, skipn_app_exact by reflexivity.
+    specialize (IH fuel Hwt Hft ltac:(lia)).
+    destruct (sub_loop fuel (flat_map (enc_sub e) t)) as [r1 c1]. cbn [fst] in IH. subst r1. reflexivity.
+Qed.
+
+Definition wfh (h : hdr) : Prop :=
+  length (h_version h) = 2%nat /\ length (h_vendor h) = 2%nat /\ length (h_prefix h) = 12%nat.
+
+Theorem message_roundtrip_struct : forall e h ps,
+  wfh h -> Forall wfp ps -> Forall (fits e) ps -> len ps <= 65536 ->
+  parse_message (encode_message e h ps) = Ok (h, map pcanon ps).
+Proof.
+  intros e [ver ven pre] ps (H1 & H2 & H3) Hw Hf Hn; cbn [h_version h_vendor h_prefix] in *.
+  destruct ver as [|v1 [|v2 [|? ?]]]; try discriminate H1.
+  destruct ven as [|w1 [|w2 [|? ?]]]; try discriminate H2.
+  do 13 (destruct pre as [|? pre]; try discriminate H3).
+  unfold parse_message, parse_message_cost, encode_message, enc_hdr, RTPS_MAGIC; cbn [h_version h_vendor h_prefix app].
+  rewrite shorter_spec.
+  match goal with |- context [len ?l <? 20] => assert (El : 20 <= len l) end.
+  { unfold len. cbn [length]. lia. }
+  destruct (Z.ltb_spec (len (82 :: 84 :: 80 :: 83 :: v1 :: v2 :: w1 :: w2 :: z :: z0 :: z1 :: z2 :: z3 :: z4 :: z5 :: z6 :: z7 :: z8 :: z9 :: z10 :: flat_map (enc_sub e) ps)) 20); [lia|].
+  cbn [firstn skipn list_eqb Z.eqb Pos.eqb andb negb].
+  pose proof (sub_loop_enc e ps MAX_SUBMESSAGES Hw Hf) as Hs.
+  assert (Hm : (length ps <= MAX_SUBMESSAGES)%nat) by (unfold MAX_SUBMESSAGES, len in *; lia).
+  specialize (Hs Hm).
+  destruct (sub_loop MAX_SUBMESSAGES (flat_map (enc_sub e) ps)) as [r c]. cbn [fst] in Hs. subst r. reflexivity.
 Qed.
